@@ -225,7 +225,7 @@ class DGReduceMax {
       MPI_Allreduce(&local_mdata, &global_mdata, 1, MPI_UNSIGNED, MPI_MAX,
                     MPI_COMM_WORLD);
     } else if (typeid(Ty) == typeid(uint64_t)) {
-      MPI_Allreduce(&local_mdata, &global_mdata, 1, MPI_UNSIGNED_LONG, MPI_MAX,
+      MPI_Allreduce(&local_mdata, &global_mdata, 1, MPI_UINT64_T, MPI_MAX,
                     MPI_COMM_WORLD);
     } else if (typeid(Ty) == typeid(float)) {
       MPI_Allreduce(&local_mdata, &global_mdata, 1, MPI_FLOAT, MPI_MAX,
@@ -358,7 +358,7 @@ class DGReduceMin {
       MPI_Allreduce(&local_mdata, &global_mdata, 1, MPI_UNSIGNED, MPI_MIN,
                     MPI_COMM_WORLD);
     } else if (typeid(Ty) == typeid(uint64_t)) {
-      MPI_Allreduce(&local_mdata, &global_mdata, 1, MPI_UNSIGNED_LONG, MPI_MIN,
+      MPI_Allreduce(&local_mdata, &global_mdata, 1, MPI_UINT64_T, MPI_MIN,
                     MPI_COMM_WORLD);
     } else if (typeid(Ty) == typeid(float)) {
       MPI_Allreduce(&local_mdata, &global_mdata, 1, MPI_FLOAT, MPI_MIN,
